@@ -47,6 +47,26 @@ We use it to log cache accesses but not spam at log level DEBUG.
 """
 
 
+def _deep_copy_of_tree(tree: Tree) -> Tree:
+    """
+    Returns a copy of the tree that shares neither nodes nor children lists with the original.
+    Other than copy.deepcopy it does not recurse, so the nesting depth of an expression is not limited by the
+    recursion limit (a few hundred nested compositions were enough to raise a RecursionError).
+    """
+    copy_of_root = type(tree)(tree.data, [], getattr(tree, "_meta", None))
+    nodes_to_copy = [(tree, copy_of_root)]
+    while nodes_to_copy:
+        original, copied = nodes_to_copy.pop()
+        for child in original.children:
+            if isinstance(child, Tree):
+                copy_of_child = type(child)(child.data, [], getattr(child, "_meta", None))
+                nodes_to_copy.append((child, copy_of_child))
+                copied.children.append(copy_of_child)
+            else:
+                copied.children.append(deepcopy(child))
+    return copy_of_root
+
+
 def tree_copy(lru_cached_parsing_func: Callable[[str], Tree]):
     """
     A decorator that returns copy of the cached result from the lru_cached_parsing_func.
@@ -66,7 +86,7 @@ def tree_copy(lru_cached_parsing_func: Callable[[str], Tree]):
         if cache_size_after_parsing == cache_size_before_parsing:
             expression = args[0] if args else next(iter(kwargs.values()), None)
             parsing_logger.log(_CACHE_LOG_LEVEL, "The parsed tree for '%s' has been loaded from the cache", expression)
-        return deepcopy(tree_result)
+        return _deep_copy_of_tree(tree_result)
 
     return decorated
 
